@@ -328,6 +328,8 @@ META = (META[0] + " " + META_EXTRA, META[1])
 
 def run(chk, tier):
     db = D.load("checks")
+    from ..rules import params as _PR
+    _PR.check(chk, db, ['_optional/', '_variant/', '_expected/'], floor=40)
     nrel = rel.check(chk, db, ["_optional/optional.hpp", "_variant/variant.hpp", "_expected/unexpected.hpp"])
     if nrel < 22:
         chk.analysis_broken("REL: only %d optional/variant operators modelled (floor 22)" % nrel)
